@@ -23,7 +23,7 @@ from dask_array._core_utils import _calculate_new_chunksizes
 from dask_array._numpy_compat import normalize_axis_tuple
 from dask_array._utils import compute_meta, meta_from_array, validate_axis
 from dask.layers import ArrayOverlapLayer
-from dask.utils import derived_from, ensure_dict
+from dask.utils import derived_from, ensure_dict, has_keyword
 
 
 def _overlap_internal_chunks(original_chunks, axes):
@@ -293,6 +293,10 @@ class MapOverlap(ArrayExpr):
         # This rewrite currently tracks one depth spec while slicing every input.
         if len(self.arrays) != 1:
             return None
+        # A function told where its block sits would be told a position in the
+        # sliced input instead.
+        if has_keyword(self.func, "block_id") or has_keyword(self.func, "block_info"):
+            return None
 
         # Pad index to full length
         full_index = list(index) + [slice(None)] * (ndim - len(index))
@@ -334,6 +338,10 @@ class MapOverlap(ArrayExpr):
                 output_trim_index.append(slice(None))
             else:
                 if not self.allow_rechunk:
+                    return None
+                # With the halos kept, output positions along an overlap axis
+                # are not input positions.
+                if not self.trim_output:
                     return None
 
                 # Expand slice by overlap depth for input
